@@ -20,24 +20,22 @@ class C33(Check):
     )
 
     def pinned(self, tier):
-        n = 2 if tier == "quick" else 20
-        for c in gens.corpus_slice(n, maxsize=500 if tier == "quick" else 1500, offset=3):
-            c.update(templater="raw", rules="all", rule_options={}, fix=False)
-            yield c
+        yield from lintlib.pinned_lint_cases(tier, per_dialect=2, mutants_per_dialect=2, templates=150, salt=33, fix_mode=False)
         for r in gens.templater_corpus():
             if len(r["sql"]) < 700:
                 yield {"dialect": "ansi", "templater": "jinja", "sql": r["sql"], "context": dict(gens.JCTX), "rules": "all",
                        "rule_options": {}, "fix": False, "origin": "templater-fixture"}
 
     def strategy(self, tier):
-        jin = st.one_of(gens.jinja_case(profile="realistic"), gens.jinja_case(profile="realistic"), gens.jinja_case())
+        jin = st.one_of(gens.jinja_case(profile="realistic", uniform=True), gens.jinja_case(profile="realistic", uniform=True),
+                        gens.jinja_case(uniform=True))
         base = st.one_of(jin, jin, jin, gens.pyfmt_case(), gens.placeholder_case(),
-                         gens.corpus_case(maxsize=500 if tier == "quick" else 1200), gens.gsql_case(distinct=True))
+                         gens.corpus_case(maxsize=500 if tier == "quick" else 1200), gens.gsql_case(distinct=True, uniform=True))
         return st.tuples(base, st.sampled_from(lintlib.RULE_SELECTIONS[:4]), st.sampled_from(lintlib.RULE_OPTIONS)).map(
             lambda t: dict(t[0], rules=t[1], rule_options=t[2], fix=False))
 
     def examples(self, tier):
-        return 90 if tier == "quick" else 3000
+        return 40 if tier == "quick" else 1500
 
     def run_case(self, case):
         templater = case.get("templater", "raw")
